@@ -411,3 +411,50 @@ contract(H + "__init__", params={"self": "obj:Heap", "size": "int", "policy": "s
 def FLOAT_MAX():
     import sys
     return sys.float_info.max
+
+
+# offset variants (the k-NN models never reset the conquest-order list: a run occupies ABSOLUTE positions off .. off+a-1
+# and the ghost rank stores absolute positions)
+
+def inj_hyp_off(f, g, a, b, off):
+    """f maps positions off..off+a-1 into [0, b); g gives back the absolute position"""
+    return forall(off, off + a, lambda i: conj(le(0, f[i]), lt(f[i], b), eq(g[f[i]], i)))
+
+
+def _inj_off_vcs(f, g, a, b, off):
+    import z3
+    from pyvc.engine import fresh_list
+    f2, g2 = fresh_list("io.f2", "int"), fresh_list("io.g2", "int")
+    k = z3.Int("io.k")
+    d = [z3.ForAll([k], f2[k] == f[off + k], patterns=[f2[k]]),
+         z3.ForAll([k], g2[k] == g[k] - off, patterns=[g2[k]])]
+    base = [ge(a, 0), ge(b, 0), ge(off, 0), inj_hyp_off(f, g, a, b, off)] + d
+    return [("shift", base, inj_hyp(f2, g2, a, b)),
+            ("use_inj_card", [ge(a, 0), ge(b, 0), implies(inj_hyp(f2, g2, a, b), le(a, b)), inj_hyp(f2, g2, a, b)], le(a, b))]
+
+
+lemma("inj_card_off", params={"f": "list[int]", "g": "list[int]", "a": "int", "b": "int", "off": "int"}, props=PROPS,
+      hyp=lambda f, g, a, b, off: [("nonneg", conj(ge(a, 0), ge(b, 0), ge(off, 0))), ("inj", inj_hyp_off(f, g, a, b, off))],
+      conclusion=lambda f, g, a, b, off: le(a, b), vcs=_inj_off_vcs)
+
+
+def inj_hyp_goff(f, g, a, b, off):
+    """f maps [0, a) into the absolute positions off..off+b-1; g gives back the element"""
+    return forall(0, a, lambda i: conj(le(off, f[i]), lt(f[i], off + b), eq(g[f[i]], i)))
+
+
+def _inj_goff_vcs(f, g, a, b, off):
+    import z3
+    from pyvc.engine import fresh_list
+    f2, g2 = fresh_list("io.f2", "int"), fresh_list("io.g2", "int")
+    k = z3.Int("io.k")
+    d = [z3.ForAll([k], f2[k] == f[k] - off, patterns=[f2[k]]),
+         z3.ForAll([k], g2[k] == g[off + k], patterns=[g2[k]])]
+    base = [ge(a, 0), ge(b, 0), ge(off, 0), inj_hyp_goff(f, g, a, b, off)] + d
+    return [("shift", base, inj_hyp(f2, g2, a, b)),
+            ("use_inj_card", [ge(a, 0), ge(b, 0), implies(inj_hyp(f2, g2, a, b), le(a, b)), inj_hyp(f2, g2, a, b)], le(a, b))]
+
+
+lemma("inj_card_goff", params={"f": "list[int]", "g": "list[int]", "a": "int", "b": "int", "off": "int"}, props=PROPS,
+      hyp=lambda f, g, a, b, off: [("nonneg", conj(ge(a, 0), ge(b, 0), ge(off, 0))), ("inj", inj_hyp_goff(f, g, a, b, off))],
+      conclusion=lambda f, g, a, b, off: le(a, b), vcs=_inj_goff_vcs)
